@@ -190,7 +190,7 @@ PROPS["C02"] = dict(
 
 PROPS["C07"] = dict(
     modules=["Morlock.Props.C07", "Morlock.Props.C07Board", "Morlock.Props.GenTieExamples"],
-    streams=["game"],
+    streams=["game", "engine"],
     level_text="Lean theorems (full, for EVERY table z with z.enpassant 0 = 0): the incremental update ZobristTable.Move applied to Hash(p) equals Hash of the successor for "
                "every accurate move (all kinds: capture, promotion, e.p., both castlings), and two represented positions differing in exactly one square / the rights / the "
                "e.p. target / the side have hashes differing by the xor of the two keys involved (hence different when those keys differ). At BOARD level (C07Board): on every board "
